@@ -996,6 +996,18 @@ class Interpreter(BaseInterpreter[TContext, TEvent]):
         # Encapsulation: Delegate cancellation to the dedicated TaskManager.
         await self.task_manager.cancel_by_owner(state.id)
 
+        # 🧹 Cancelling the tasks is not enough: an expiry or a service result
+        #    may ALREADY be queued behind the event that is exiting the state.
+        #    If the state is re-entered before the queue drains, that stale
+        #    notification fired the fresh activation's `after` transition
+        #    0 ms after entry, or drove its `onDone` with the old result.
+        if state.after or state.invoke:
+            pending = self._event_queue._queue  # type: ignore[attr-defined]
+            stale = [e for e in pending if self._is_stale_notification(e, state)]
+            for event in stale:
+                pending.remove(event)
+                self._event_queue.task_done()
+
     async def _after_timer_task(
         self, delay_sec: float, event: AfterEvent
     ) -> None:
